@@ -449,7 +449,10 @@ func runScenario(scn *Scn) (lines []string, clean bool, stat map[string]int) {
 			G.Unlock()
 		}
 	}
-	r.info(fmt.Sprintf("consts %d", int64(func() time.Duration { _, e, _ := modules.VerifTaskConsts(); return e }())))
+	func() {
+		_, e, d := modules.VerifTaskConsts()
+		r.info(fmt.Sprintf("consts %d %d", int64(e), int64(d)))
+	}()
 
 	// callers
 	nth := 0
